@@ -33,7 +33,7 @@ fn main() {
         vec![0, 1, 0x7FFF_FFFF, 0x8000_0000, 0x8000_0001, 0xFFFF_FFFF, 0xDEAD_BEEF, 0x7FFF_FFFFu32.wrapping_add(12345),
              2, 0xFFFF_FFFE, 0x0000_FFFF, 0x0001_0000, 0x5555_5555, 0xAAAA_AAAA, 0x4000_0000, 0xC000_0000]
     } else {
-        vec![0, 0x7FFF_FFFF, 0xFFFF_FFFF, 0xDEAD_BEEF]
+        vec![0, 0x7FFF_FFFF, 0xFFFF_FFFF]
     };
 
     // (1) comparison over all differences
@@ -99,15 +99,27 @@ fn main() {
     for &b in &add_bases {
         par_chunks(1u64 << 31, 1 << 22, |lo, hi| {
             let mut bad = None;
-            for n in lo..hi {
-                let n = n as u32;
-                let r = Serial(b).add(n);
-                let ok = r.0 == b.wrapping_add(n)
-                    && if n == 0 { r == Serial(b) } else {
-                        r.partial_cmp(&Serial(b)) == Some(Ordering::Greater)
-                        && Serial(b).partial_cmp(&r) == Some(Ordering::Less)
-                        && r > Serial(b) && Serial(b) < r };
-                if !ok && bad.is_none() { bad = Some((n, format!("add gave {:#x}, cmp to base {:?}", r.0, r.partial_cmp(&Serial(b))))); }
+            // a panic inside a permitted add is a violation, not a crash of the explorer:
+            // the chunk runs under a guard and is re-walked element-wise to name the first n
+            let scan = |from: u64, to: u64, bad: &mut Option<(u32, String)>| {
+                for n in from..to {
+                    let n = n as u32;
+                    let r = Serial(b).add(n);
+                    let ok = r.0 == b.wrapping_add(n)
+                        && if n == 0 { r == Serial(b) } else {
+                            r.partial_cmp(&Serial(b)) == Some(Ordering::Greater)
+                            && Serial(b).partial_cmp(&r) == Some(Ordering::Less)
+                            && r > Serial(b) && Serial(b) < r };
+                    if !ok && bad.is_none() { *bad = Some((n, format!("add gave {:#x}, cmp to base {:?}", r.0, r.partial_cmp(&Serial(b))))); }
+                }
+            };
+            if guard(|| scan(lo, hi, &mut bad)).is_err() {
+                for n in lo..hi {
+                    if let Err(p) = guard(|| Serial(b).add(n as u32)) {
+                        ctx.fail("C16.add.nopanic", format!("base={b:#x} n={:#x}", n as u32), format!("permitted increment (n < 2^31) panics: {p}"));
+                        break;
+                    }
+                }
             }
             sp.evals(hi - lo);
             sp.nontrivial(hi - lo - if lo == 0 { 1 } else { 0 });
